@@ -75,6 +75,8 @@ pub struct NodeCfg {
     pub nat: bool,
     pub skew_s: i64,
     pub tick_phase_ms: u64,
+    /// a password configured in addition to an explicit private key (e.g. left over in a config file)
+    pub extra_password: Option<String>,
 }
 
 impl Default for NodeCfg {
@@ -103,6 +105,7 @@ impl Default for NodeCfg {
             nat: false,
             skew_s: 0,
             tick_phase_ms: 0,
+            extra_password: None,
         }
     }
 }
@@ -280,6 +283,11 @@ pub struct World {
     pub aliases: BTreeMap<SocketAddr, usize>,
     /// datagrams sent to this alias arrive with the given source address (hair-pin / port-forward paths)
     pub alias_src: BTreeMap<SocketAddr, SocketAddr>,
+    /// multi-homed nodes: the address of node n in a second network; a datagram to a second-network address arrives
+    /// with the sender's second-network address as source
+    pub second_addr: BTreeMap<usize, SocketAddr>,
+    /// node id of every incarnation -> the peer timeout it was configured with (and therefore advertises)
+    pub advertised_timeout: BTreeMap<[u8; 16], u16>,
     /// node behind a translating NAT with a port forward: everybody else sees (and reaches) it as this address
     pub public_addr: BTreeMap<usize, SocketAddr>,
     pub wire: Vec<WireRec>,
@@ -343,6 +351,8 @@ impl World {
             blocked: BTreeSet::new(),
             aliases: BTreeMap::new(),
             alias_src: BTreeMap::new(),
+            second_addr: BTreeMap::new(),
+            advertised_timeout: BTreeMap::new(),
             public_addr: BTreeMap::new(),
             wire: vec![],
             frames: vec![],
@@ -465,6 +475,7 @@ impl World {
             config.crypto.password = k.password.clone();
         } else {
             config.crypto.private_key = Some(k.private.clone());
+            config.crypto.password = c.extra_password.clone();
             if c.give_public_key {
                 config.crypto.public_key = Some(k.public.clone());
             }
@@ -484,6 +495,13 @@ impl World {
         let public = mapped_addr(public);
         self.public_addr.insert(n, public);
         self.aliases.insert(public, n);
+    }
+
+    /// gives node n a second address (second network interface)
+    pub fn set_second_addr(&mut self, n: usize, second: SocketAddr) {
+        let second = mapped_addr(second);
+        self.second_addr.insert(n, second);
+        self.aliases.insert(second, n);
     }
 
     /// the public key node n really uses (as its Crypto object holds it)
@@ -551,6 +569,7 @@ impl World {
             Ok((cloud, err)) => {
                 let id = with_cloud!(&cloud, c => c.verif_snapshot().node_id);
                 node.node_ids.push(id);
+                self.advertised_timeout.insert(id, node.cfg.peer_timeout as u16);
                 node.cloud = Some(cloud);
                 node.start_error = err;
                 let inc = node.incarnation;
@@ -809,6 +828,8 @@ impl World {
                 _ => src,
             },
         };
+        // second network: the source is the sender's address in that network
+        let src = if self.second_addr.values().any(|a| *a == dst) { self.second_addr.get(&n).copied().unwrap_or(src) } else { src };
         let id = self.wire.len();
         self.hash_in(rng::hash_bytes(&data) ^ (data.len() as u64) << 32 ^ 0xaa);
         let data = Rc::new(data);
